@@ -595,7 +595,9 @@ pub fn rd_predicate_prestate(levels: &[Vec<SstMetadata>]) -> bool {
     // one level that share a boundary key add to it, so it is not bounded by the number of levels.
     // When the squeeze would happen every touching pair with overlapping timestamps counts (the
     // broad predicate).
-    if recovery_max_level(&files.iter().map(|(_, m)| *m).collect::<Vec<_>>()) >= lsmtk::NUM_LEVELS {
+    // + 1: on a KeyValueStore reopen the replayed log becomes one more sst (a root of the graph)
+    // before the levels are computed
+    if recovery_max_level(&files.iter().map(|(_, m)| *m).collect::<Vec<_>>()) + 1 >= lsmtk::NUM_LEVELS {
         return rd_predicate(levels);
     }
     // union-find over the "same component" relation (key ranges touch and timestamp ranges overlap)
@@ -1351,34 +1353,46 @@ impl<'a> Harness<'a> {
         let outcome = {
             use std::sync::atomic::Ordering::SeqCst;
             let tree: &LsmTree = self.tree.as_ref().unwrap();
-            let parked0 = lsmtk::verif::PARKED.load(SeqCst);
+            // exact: counts ingests that entered the stall wait (threads leaked by earlier threaded
+            // cases of this process can move PARKED, not this counter without an ingest of ours)
+            let stalls0 = lsmtk::verif::INGEST_STALLS.load(SeqCst);
             let path_ref = &path;
             std::thread::scope(|sc| {
                 let h = sc.spawn(move || vcore::guard(|| tree.ingest(path_ref)));
                 let t0 = std::time::Instant::now();
                 let mut stuck = false;
+                let mut comp_err: Option<String> = None;
                 loop {
                     if h.is_finished() {
                         break;
                     }
-                    if lsmtk::verif::PARKED.load(SeqCst) > parked0 {
-                        // parked on the stall: let compaction run until the selector has nothing left
+                    if lsmtk::verif::INGEST_STALLS.load(SeqCst) > stalls0 {
+                        // held back on the stall: let compaction run until the selector has nothing left
                         let mut idle = false;
                         for _ in 0..lsmtk::NUM_LEVELS * 64 {
                             if h.is_finished() {
                                 break;
                             }
-                            if tree.compaction_thread().is_err() || lsmtk::verif::last_idle() {
-                                idle = true;
-                                break;
+                            match tree.compaction_thread() {
+                                Err(e) => {
+                                    comp_err = Some(format!("{e:?}"));
+                                    break;
+                                }
+                                Ok(()) if lsmtk::verif::last_idle() => {
+                                    idle = true;
+                                    break;
+                                }
+                                Ok(()) => {}
                             }
                         }
+                        // a woken thread needs microseconds; the limit only guards against a machine so
+                        // loaded that a runnable thread is not scheduled for seconds
                         let t1 = std::time::Instant::now();
-                        while !h.is_finished() && t1.elapsed() < std::time::Duration::from_millis(if idle { 400 } else { 12_000 }) {
+                        while !h.is_finished() && t1.elapsed() < std::time::Duration::from_secs(12) {
                             std::thread::sleep(std::time::Duration::from_micros(200));
                         }
-                        if !h.is_finished() && lsmtk::verif::PARKED.load(SeqCst) > parked0 {
-                            stuck = true;
+                        if !h.is_finished() {
+                            stuck = idle && comp_err.is_none();
                             lsmtk::verif::STOP.store(true, SeqCst);
                             tree.verif_wake_all();
                         }
@@ -1391,25 +1405,28 @@ impl<'a> Harness<'a> {
                 }
                 let r = h.join();
                 lsmtk::verif::STOP.store(false, SeqCst);
-                (stuck, r)
+                (stuck, comp_err, r)
             })
         };
         match outcome {
-            (true, _) => {
+            (_, Some(e), _) => return Err(fail("op-error:compaction", format!("a compaction step offered to a held-back ingest failed: {e}"))),
+            // the ingest went through after all (woken late): an ordinary ingest
+            (_, None, Ok(Ok(Ok(())))) => {}
+            (true, None, _) => {
                 self.stats.ingest_parked_for_ever += 1;
+                let _ = std::fs::remove_file(&path);
                 if self.probes.stall {
                     return Err(fail(
                         "stall:ingest-parked-selector-idle",
-                        format!("an ingest is held back (parked on the write stall) although the store reports that level 0 does not call for a stall, and the compaction selector finds nothing to run: the writer waits for ever; tree {}; stall files {} bytes {}; max_compaction_files {} bytes {}", self.shape(), self.cfg.l0_stall_files, self.cfg.l0_stall_bytes, self.cfg.max_compaction_files, self.cfg.max_compaction_bytes),
+                        format!("an ingest is held back on the write stall although the store reports that level 0 does not call for a stall, and the compaction selector finds nothing to run: the writer waits for ever; tree {}; stall files {} bytes {}; max_compaction_files {} bytes {}", self.shape(), self.cfg.l0_stall_files, self.cfg.l0_stall_bytes, self.cfg.max_compaction_files, self.cfg.max_compaction_bytes),
                     ));
                 }
                 self.stats.excluded.push("stall-unrelieved-not-asserted-by-this-check".into());
-                let _ = std::fs::remove_file(&path);
                 return Ok(());
             }
-            (false, Ok(Ok(r))) => r.map_err(|e| fail("op-error:ingest", format!("ingest failed: {e:?}")))?,
-            (false, Ok(Err(f))) => return Err(f),
-            (false, Err(_)) => return Err(fail("panic@ingest-thread", "the ingest panicked on its helper thread".to_string())),
+            (false, None, Ok(Ok(Err(e)))) => return Err(fail("op-error:ingest", format!("ingest failed: {e:?}"))),
+            (false, None, Ok(Err(f))) => return Err(f),
+            (false, None, Err(_)) => return Err(fail("panic@ingest-thread", "the ingest panicked on its helper thread".to_string())),
         }
         let _ = std::fs::remove_file(&path);
         for (k, v) in updates {
